@@ -21,6 +21,9 @@ func init() {
 			fmt.Fprintf(r.w, "yamlset %d err=1 valid=- result=-\n", r.idx)
 			return
 		}
+		// the result belongs to the caller: applying the matchers to ANOTHER document afterwards must not change it
+		// (`out` is deliberately not copied before this second call)
+		applyYAMLMatchers(append([]byte("aa_other_document: [1, 2, 3]\n"), doc...), vBuildYAMLMatchers(o.Matchers)...)
 		var v any
 		if err := yaml.Unmarshal(out, &v); err != nil {
 			fmt.Fprintf(r.w, "yamlset %d err=0 valid=0 result=%s\n", r.idx, vhex(out))
